@@ -42,8 +42,15 @@ thread_local! {
 }
 
 /// A loader that logs every request and then delegates to boa's `MapModuleLoader`.
+/// The map is replaced for every case, so one `Context` can serve many cases (building a `Context` costs far more
+/// than a case).  The context is thrown away after any op that did not fulfil (a throwing body leaves entries on the
+/// engine's value stack — DESIGN.md section 5 #13 — which would accumulate), after a panic, and after 128 cases.
 struct LogLoader {
-    map: Rc<MapModuleLoader>,
+    map: RefCell<Rc<MapModuleLoader>>,
+}
+
+thread_local! {
+    static CTX: RefCell<Option<(Context, Rc<LogLoader>, u32)>> = const { RefCell::new(None) };
 }
 
 impl ModuleLoader for LogLoader {
@@ -59,7 +66,8 @@ impl ModuleLoader for LogLoader {
             .unwrap_or_else(|| "?".into());
         let spec = request.specifier().to_std_string_escaped();
         LOADS.with(|l| l.borrow_mut().push(format!("{from}>{spec}")));
-        self.map.clone().load_imported_module(referrer, request, context).await
+        let map = self.map.borrow().clone();
+        map.load_imported_module(referrer, request, context).await
     }
 }
 
@@ -205,12 +213,22 @@ fn run_case(line: &str) -> String {
     LOADS.with(|l| l.borrow_mut().clear());
     let _ = bh::take_trace();
     let map = Rc::new(MapModuleLoader::new());
-    let loader = Rc::new(LogLoader { map: map.clone() });
-    let mut ctx = match Context::builder().module_loader(loader).build() {
-        Ok(c) => c,
-        Err(e) => return format!("bad-context {e}"),
+    let reuse = std::env::var_os("MODOPS_FRESH_CONTEXT").is_none();
+    let cached = if reuse { CTX.with(|c| c.borrow_mut().take()) } else { None };
+    let (mut ctx, loader, uses) = match cached {
+        Some(x) => x,
+        None => {
+            let loader = Rc::new(LogLoader { map: RefCell::new(map.clone()) });
+            let mut ctx = match Context::builder().module_loader(loader.clone()).build() {
+                Ok(c) => c,
+                Err(e) => return format!("bad-context {e}"),
+            };
+            bh::install_print(&mut ctx);
+            (ctx, loader, 0)
+        }
     };
-    bh::install_print(&mut ctx);
+    *loader.map.borrow_mut() = map.clone();
+    let mut clean = true;
     let mut handles = Vec::new();
     for (k, m) in mods.iter().enumerate() {
         let src = source_of(k, m);
@@ -245,15 +263,26 @@ fn run_case(line: &str) -> String {
                     PromiseState::Fulfilled(_) => "F".to_string(),
                     PromiseState::Rejected(v) => format!("R:{}", describe_error(&v, &mut ctx)),
                 };
+                if st != "F" {
+                    clean = false;
+                }
+                if jobs_err {
+                    clean = false;
+                }
                 let st = if jobs_err { format!("{st}!jobs-error") } else { st };
                 out.push(format!("L{k}={st}~{}~{}", trace.join(","), loads.join(",")));
             }
             Err(msg) => {
                 let msg = msg.replace(['\n', ';', '~'], " ");
                 out.push(format!("L{k}=X:{msg}~{}~{}", trace.join(","), loads.join(",")));
+                clean = false;
                 break;
             }
         }
+    }
+    drop(handles);
+    if clean && reuse && uses < 128 {
+        CTX.with(|c| *c.borrow_mut() = Some((ctx, loader, uses + 1)));
     }
     out.join(";")
 }
